@@ -130,6 +130,19 @@ func c06Shape(shape int) ([]c06Mod, []c06Bin) {
 			m,
 			mk("N", c06Map, 0, c06MapIn("M")),
 		}, bins
+	case 4: // two index modules that are both ancestors of M through other paths; M is filtered by one of them
+		p := mk("P", c06Map, 0, c06Src(src))
+		p.filterRef, p.filterQ = "I", s("query")
+		q := mk("Q", c06Map, 1, c06Src(src))
+		q.filterRef, q.filterQ = "J", s("query")
+		m := mk("M", c06Map, 0, c06MapIn("P"), c06MapIn("Q"))
+		m.filterRef, m.filterQ = "I", s("query")
+		return []c06Mod{
+			mk("I", c06Index, 0, c06Src(src)),
+			mk("J", c06Index, 1, c06Src(src)),
+			p, q, m,
+			mk("N", c06Map, 0, c06MapIn("M")),
+		}, bins
 	default: // store with two map inputs, read by a map; plus an unrelated module
 		return []c06Mod{
 			mk("A", c06Map, 0, c06Src(src)),
@@ -192,7 +205,7 @@ var c06Mutations = []string{
 // VerifC06Mutation: one mutation of one module changes the identifier of that
 // module and of its descendants and of nothing else.
 func VerifC06Mutation() {
-	shape := sym.Choice("shape", sym.Param("SHAPES", 4))
+	shape := sym.Choice("shape", sym.Param("SHAPES", 5))
 	mods, bins := c06Shape(shape)
 	before, ok := c06HashAll(c06Build(mods, bins))
 	if !ok {
@@ -289,7 +302,11 @@ func VerifC06Mutation() {
 		}
 		// another index module that is not the same computation
 		sym.Assume(!sym.EqBytes(before["I"], before["J"]))
-		t.filterRef = "J"
+		if t.filterRef == "I" {
+			t.filterRef = "J"
+		} else {
+			t.filterRef = "I"
+		}
 	}
 	hashed, ok := c06HashAll(c06Build(after, bins2))
 	if !ok {
@@ -312,7 +329,7 @@ func VerifC06Mutation() {
 // VerifC06Preserved: renaming, alias import, unrelated additions and binary
 // re-indexing leave every identifier unchanged; hashing is deterministic.
 func VerifC06Preserved() {
-	shape := sym.Choice("shape", sym.Param("SHAPES", 4))
+	shape := sym.Choice("shape", sym.Param("SHAPES", 5))
 	mods, bins := c06Shape(shape)
 	base := c06Build(mods, bins)
 	before, ok := c06HashAll(base)
